@@ -188,6 +188,49 @@ CHECKS = {
 
 TODO_REASON = "check not built yet in this revision (planned, see DESIGN.md section 5); no claim is made"
 
+
+# what the audit passes (AUDIT.md) added on top of the first statement of each check; appended to the level text
+EXTRA = {
+    "C01": "Audit additions: both directions separately (cid_of_contentEq, not_contentEq_of_cid_ne), the field-wise reading of content "
+           "equality (contentEq_iff_fields / contentEq_iff_same / triples_eq_iff / absent_ne_present), non-vacuity of the hypotheses; "
+           "`is_equal` is regenerated from node.py on every run and proved equal to the model (GenBridgeIsEq.isEqual_eq_gen, optional obligation).",
+    "C03": "Audit additions: lookup_complete / lookup_only_own_class / lookup_unique (get finds exactly the live node of that id and class), "
+           "registered_ids_distinct, live_ids_distinct, detach_unregisters / detach_not_returned; the serializer of the registry machine is inside the model (Model/RegistrySer).",
+    "C04": "End-to-end on the registry machine: serOf (the payload as a function of the heap), roundtrip_alive / roundtrip_fresh / roundtrip_iso / "
+           "roundtrip_fresh_process, clash_free from acyclicity, and the same over every history (roundtrip_alive_history, roundtrip_fresh_history). "
+           "Property VALUES: Model/ValueCodec (mashumaro's per-annotation codec) with dec_enc under the decidable side condition Ty.rt and decide-checked "
+           "witnesses for the three listed findings F31-F33; standard-library scalars (timestamps, dates, times, durations, decimals, UUIDs, fractions, bytes) "
+           "are covered by a round-trip oracle in all four formats (found F34, fixed).",
+    "C06": "Audit additions: every query on a foreign node raises KeyError (foreign_all_keyError, *_keyError_iff), chains are unique (chain_unique, exists_unique_chain; "
+           "NoRepeat necessary: chain_unique_needs_noRepeat), is_root characterised, queries_total; xpath strings can be followed back from the root to the very node (follow_getXpath, follow_steps_unique).",
+    "C07": "q4 additions: findall_iff_match (n in findall iff match, the property's first sentence, from the tables), findall_exactly_matches / findall_nodup_nodes, "
+           "xfind_first, sat_iff_segments (declarative reading of the documented semantics: one non-empty chain segment per step, longer than one only under //), "
+           "sat_absolute_first, text_findall_iff_match (text level composed with the parser theorem).",
+    "C08": "q4 additions: an inductive relation Matches with one rule per clause of the property (Spec/PatternRel) and matches_iff (the executable spec = the relation, no hypotheses), "
+           "match_iff_matches / nomatch_iff_matches for the compiled matcher, capture exactness at every depth (cap_field, cap_item, cap_tail, caps_inner_*, caps_are_parts: nothing "
+           "but the subject, field values, sequence elements and suffix tuples is ever bound), the MultiPatternMatcher constructor (multiInit_some_iff, multi_text_eq_spec, multiRun_first), "
+           "$var on nodes = content equality (var_node_contentEq via C01).",
+    "C10": "Audit additions: registry frame for every operation (reg_frame*, unregister_exact: detach / replace remove exactly the receiver's descendants — RegOrd.detach_exact, "
+           "mem_descendants_iff), obj_frame_history / id_frame_run over whole histories.",
+    "C13": "Audit additions: soundness and completeness of the report (field_reported_iff, construct_error_sound / construct_error_witness, checkRuntimeTypes_subset), "
+           "monotonicity conforms_imp, Literal (lit_exact), the checked construction path (construct_on_checked).",
+    "C14": "Audit additions: duplicate creates only new registered nodes at every depth (dup_all_new, dup_all_registered, dup_descendants_new), the id rule of replace stated as an iff "
+           "(replace_keeps_id_iff, replace_same_digest_keeps_id_iff; the naive rule fails: replace_keeps_id_naive_fails), freshId_least / freshId_skipped, idShape_run.",
+    "C16": "Audit additions: tag-first + rest-sorted shape in every nested mapping (sorted_tagged_all, nested_tag_is_class, nested_source_is_idx), the try/finally made explicit "
+           "(Model/SerOptsF: callF, tryFin_reset, reset_after_via_finally; dropping the finally or the deserializer reset fails: callNoFinally_fails, callNoResetDeser_fails), "
+           "re-entrant hooks named as the limit (reentrant_hook_breaks_options).",
+    "C17": "q4 additions: accepts_iff_wf / accepts_iff_clauses (accepted iff all class names are node classes, all regexes compile, captures distinct, every variable after its capture), "
+           "compile_err_cause (which error for which defect; the generic runtime error never occurs: compile_no_runtime, compilePattern_trichotomy for arbitrary text), "
+           "parseXPath_nonempty, xwalk_no_indexError, xpath_unknown_class_rejected.",
+    "C18": "Audit additions: acyclicity as a preserved rank (ranked_step, inv_ranked_run), cid_eq_tree (content ids equal those of the tree as it is now) over runs, decidable admissibility (admB_sound), "
+           "the heap-level queries ancestors / is_ancestor / get_depth = the parent chain (Model/LegacyQueries: ancestorsGo_eq, getDepth_eq, chain_exists), a cyclic heap makes the walk hang (cyclic_walk_hangs).",
+    "C19": "Audit additions: a rejected step is a no-op on every pre-existing object and keeps the invariant (rejected_step, fail_frame_step, inv_step_any), arbitrary interleavings of accepted and rejected steps "
+           "(inv_run_mixed, frame_run_rejected), which exception kind (attach_err_kind, rwith_err_kind_partial, rwith_not_internal).",
+    "C20": "q4 additions: the character level of the legacy xpath constructor (lparseXPath_render / _rel, legacy_text_agrees_with_successor, lparseXPath_unknown_class_rejected), "
+           "calculate_xpath = Tree.get_xpath (calc_eq_get_xpath).",
+}
+
+
 def main():
     checks = []
     for pid in ALL:
@@ -201,7 +244,7 @@ def main():
             "evidence_file": f"evidence/{pid}.json",
             "replay_cmd_template": f"./check {pid} --replay {{path}}",
             "engine": "lean4-model+correspondence",
-            "level_claimed": {"category": "proof", "text": c["text"], "design_ref": c["design"]},
+            "level_claimed": {"category": "proof", "text": c["text"] + (" " + EXTRA[pid] if pid in EXTRA else ""), "design_ref": c["design"]},
             "level_note": c["note"],
             "technique": c["technique"],
         })
